@@ -12,6 +12,7 @@ import (
 	"go/constant"
 	"go/token"
 	"go/types"
+	"os"
 	"sort"
 	"strings"
 
@@ -57,6 +58,7 @@ type Exec struct {
 
 	usedExt       map[string]bool
 	usedContracts map[string]bool
+	sprintfFmt    map[string]string // result term of fmt.Sprintf -> its format literal
 	iterBase      int // recorded calls before the current loop iteration (for itercalls)
 	inlined       map[string]bool
 	forceContract map[string]bool
@@ -324,6 +326,9 @@ func (x *Exec) run(init *State) {
 		st := x.work[len(x.work)-1]
 		x.work = x.work[:len(x.work)-1]
 		x.paths++
+		if os.Getenv("GOVC_DEBUG_PROGRESS") != "" && x.paths%20 == 0 {
+			fmt.Fprintf(os.Stderr, "progress: %d states popped, %d queued, last trace: %s\n", x.paths, len(x.work), strings.Join(st.trace, " "))
+		}
 		if x.paths > x.maxPaths {
 			x.unsupported(nil, fmt.Sprintf("path budget of %d exceeded", x.maxPaths))
 			return
@@ -360,13 +365,15 @@ func (x *Exec) step(st *State) {
 		return
 	}
 	if !fr.headerDone && fr.ip == firstNonPhi(fr.block) {
-		fr.headerDone = true
 		if x.isLoopHeader(fr.fn, fr.block) {
+			// headerDone stays false while the header is processed: a state cloned by a fork during the
+			// evaluation of an invariant re-runs the header processing instead of slipping into the body
 			x.atLoopHeader(st, fr, fr.block)
 			if st.dead {
 				return
 			}
 		}
+		fr.headerDone = true
 	}
 	instr := fr.block.Instrs[fr.ip]
 	switch in := instr.(type) {
@@ -426,6 +433,21 @@ func (x *Exec) step(st *State) {
 		res := make([]Value, len(in.Results))
 		for i, r := range in.Results {
 			res[i] = x.eval(st, fr, r)
+		}
+		// "site return assert e": e holds at every return of the function under verification, with its
+		// locals in scope (result0.. are the values being returned)
+		if len(st.frames) > 0 && fr == st.frames[0] {
+			bind := map[string]TV{}
+			sig := fr.fn.Signature.Results()
+			for i := range res {
+				if i < sig.Len() {
+					bind[fmt.Sprintf("result%d", i)] = TV{res[i], sig.At(i).Type()}
+				}
+			}
+			x.siteAsserts(st, fr, "return", "", bind)
+			if st.dead {
+				return
+			}
 		}
 		x.doReturn(st, fr, res)
 	case *ssa.RunDefers:
